@@ -106,6 +106,8 @@ def default_trace_key(evt):
 def check_C02(ctx):
     q = ctx.quick()
     mc(ctx, "Generator", S("mc", "MC_Generator.cfg"), S("mc", "MC_Generator.tla"), workers=4)
+    # progress: under fairness of the productive step only, the caller's step loop drains the generator and 0 is final
+    mc(ctx, "GeneratorLive", S("mc", "MC_Generator_live.cfg"), S("mc", "MC_Generator.tla"), workers=4)
     # the same cursor laws for utterances of any length and buffers of any size
     apalache_inductive(ctx, "GenInt", S("apalache", "GenInt.tla"), "Inv")
     # S->I: every call history of length <= L on generators of 0,1,2,3,5 frames
